@@ -33,6 +33,12 @@ def check(ctx: Ctx) -> None:
     c03_r2(ctx, "C16.R3")
     c03_r1(ctx, "C16.R4")
     local_writes_take_the_durable_branch(ctx)
+    # the pointer must not name a file that a mis-classified (ambiguous) pointer write makes the committer delete
+    from .c04 import r1 as c04_r1
+    ctx.shared(c04_r1, "C04.R1", "C16.R7", "an ambiguous pointer write is never treated as a clean failure")
+    # the object-store analogue of "content flushed before the pointer moves": what a (possibly retried) PUT stores is the whole body
+    from .c20 import r13_bodies_are_bytes
+    r13_bodies_are_bytes(ctx, "C16.R8")
 
 
 def local_writes_take_the_durable_branch(ctx: Ctx, rid: str = "C16.R6") -> None:
